@@ -388,9 +388,17 @@ impl DspRuntime for WasmDspRuntime {
                         if next_global_state.len() != state_patch_plan.total_size {
                             next_global_state.resize(state_patch_plan.total_size, 0);
                         }
+                        // The host grows the state storage on demand, so the snapshot can be
+                        // shorter than the old layout when some cells were never touched
+                        // (e.g. a swap before the first sample): the missing words are zeros.
+                        let mut old_data = old_data.clone();
+                        let old_size = old_skel.total_size() as usize;
+                        if old_data.len() < old_size {
+                            old_data.resize(old_size, 0);
+                        }
                         state_tree::patch::apply_patches(
                             next_global_state.as_mut_slice(),
-                            old_data,
+                            &old_data,
                             state_patch_plan.patches.as_slice(),
                         );
                     }
